@@ -34,6 +34,13 @@ def prim_cases(ctx, n_random, n_corrupt_per_kind):
             c, r = prims.case_dec(kind, g)
             cases.append(c)
             meta.append(('dec', kind, g.hex(), 'accept' if r else 'reject'))
+        if kind == 'PText':
+            for probe in prims.utf8_probes():
+                c, r = prims.case_dec(kind, probe)
+                cases.append(c)
+                meta.append(('dec', kind, probe.hex(), 'accept' if r else 'reject'))
+                ctx.count('prim.dec.PText.utf8probe.%s' % ('accept' if r else 'reject'))
+                ctx.case_seen(('dec', kind, probe), nontrivial=True)
     return cases, meta
 
 
